@@ -383,13 +383,6 @@ var batchBufferPool = sync.Pool{
 	},
 }
 
-// Pool for bytes.Reader objects to avoid allocation on retries
-var readerPool = sync.Pool{
-	New: func() any {
-		return &bytes.Reader{}
-	},
-}
-
 // Sends one message or, if the batch is larger than what is allowed, several.
 func (d *DirectTransmission) sendBatch(wholeBatch []*types.Event) {
 	subBatch := make([]*types.Event, 0, len(wholeBatch))
@@ -470,21 +463,23 @@ func (d *DirectTransmission) sendBatch(wholeBatch []*types.Event) {
 		}
 
 		var req *http.Request
-		readerPtr := readerPool.Get().(*bytes.Reader)
-		defer readerPool.Put(readerPtr)
 
 		for try := 0; try < 2; try++ {
 			if try > 0 {
 				d.Metrics.Increment(d.metricKeys.counterSendRetries)
 			}
 
+			// A fresh reader per attempt: after a failed attempt (e.g. a timeout)
+			// the transport's write goroutine may still be using the previous
+			// request body, so it must not be reset or pooled.
+			var body *bytes.Reader
 			if d.enableCompression {
-				readerPtr.Reset(compressedData)
+				body = bytes.NewReader(compressedData)
 			} else {
-				readerPtr.Reset(packed)
+				body = bytes.NewReader(packed)
 			}
 
-			req, err = http.NewRequest("POST", apiURL, readerPtr)
+			req, err = http.NewRequest("POST", apiURL, body)
 			if err != nil {
 				d.handleBatchFailure(subBatch, err.Error(), "failed to create request")
 				break
